@@ -434,7 +434,7 @@ def _jobs_for(prop, tier):
         return [j for j in jobs_option_below(tier) if j[1][3] == 'combinations'] + jobs_combinations(tier) + jobs_axis0(tier, 'combinations')
     if prop == 'C03':
         return jobs_c03(tier) + jobs_option_reduce(tier) + jobs_axis(tier, ('reduce',)) + jobs_reduce_nonlocal(tier)
-    return {'C02': (lambda t: jobs_c02(t) + jobs_numpy_toregular(t)), 'C03': jobs_c03, 'C04': (lambda t: jobs_c04(t) + jobs_numpy_toregular(t)), 'C06': (lambda t: jobs_c06(t) + jobs_axis(t, ('sort', 'argsort')) + jobs_numpy_sort(t) + jobs_sort_nonlocal(t) + jobs_option_sort(t) + jobs_option_sort_above(t) + jobs_option_argsort(t) + jobs_string_argsort(t)), 'C08': (lambda t: jobs_c08(t) + jobs_numpy(t) + jobs_union(t) + jobs_reverse_merge(t) + jobs_record_merge(t) + jobs_list_merge(t) + [j for j in jobs_record_named(t) if j[0] is h_record_mergemany_named] + jobs_merge_union(t) + jobs_union_ops(t)), 'C17': (lambda t: jobs_c17(t) + jobs_record_keys(t)), 'C12': jobs_numpy, 'C10': (lambda t: jobs_c10(t) + [j for j in jobs_record_named(t) if j[0] is h_record_field_key] + jobs_project(t) + [j for j in jobs_option_below(t) if j[1][3] == 'getitem_field'] + jobs_record_setitem(t)), 'C05': jobs_c05, 'C09': jobs_c09}.get(prop, lambda t: [])(tier)
+    return {'C02': (lambda t: jobs_c02(t) + jobs_numpy_toregular(t)), 'C03': jobs_c03, 'C04': (lambda t: jobs_c04(t) + jobs_numpy_toregular(t)), 'C06': (lambda t: jobs_c06(t) + jobs_axis(t, ('sort', 'argsort')) + jobs_numpy_sort(t) + jobs_sort_nonlocal(t) + jobs_option_sort(t) + jobs_option_sort_above(t) + jobs_option_argsort(t) + jobs_string_argsort(t)), 'C08': (lambda t: jobs_c08(t) + jobs_numpy(t) + jobs_union(t) + jobs_reverse_merge(t) + jobs_record_merge(t) + jobs_list_merge(t) + [j for j in jobs_record_named(t) if j[0] is h_record_mergemany_named] + jobs_merge_union(t) + jobs_union_ops(t)), 'C17': (lambda t: jobs_c17(t) + jobs_record_keys(t)), 'C12': jobs_numpy, 'C10': (lambda t: jobs_c10(t) + [j for j in jobs_record_named(t) if j[0] is h_record_field_key] + jobs_project(t) + [j for j in jobs_option_below(t) if j[1][3] in ('getitem_field', 'getitem_fields')] + jobs_record_setitem(t)), 'C05': jobs_c05, 'C09': jobs_c09}.get(prop, lambda t: [])(tier)
 
 
 # ------------------------------------------------------------------------------------------------ C01: getitem_next of list nodes
@@ -984,6 +984,7 @@ BELOW_METHODS = {   # name -> (mangled method with args, slot fragment, extra le
     'combinations': ('12combinationsElbRKSt10shared_ptrISt6vectorINSt7__cxx1112basic_stringIcSt11char_traitsIcESaIcEEESaIS8_EEERKSt3mapIS8_S8_St4lessIS8_ESaISt4pairIKS8_S8_EEEll',
                      '12combinationsElb', 'combinations'),
     'getitem_field': ('13getitem_fieldERKNSt7__cxx1112basic_stringIcSt11char_traitsIcESaIcEEE', '13getitem_fieldERKNSt7__cxx1112basic_stringIcSt11char_traitsIcESaIcEEE', 'field'),
+    'getitem_fields': ('14getitem_fieldsERKSt6vector', '14getitem_fieldsERKSt6vectorINSt7__cxx1112basic_stringIcSt11char_traitsIcESaIcEEESaIS7_EE', 'fields'),
 }
 
 
@@ -1033,9 +1034,20 @@ def h_option_below(cls, pattern, variant, meth):
         kc = {}
         _string_cells(kc, 0, 'key', 'k')
         args = [nc.m.record('key', kc, const=True)]
+    elif meth == 'getitem_fields':
+        kc = {}
+        for i_, k_ in enumerate(('k', 'j')):
+            _string_cells(kc, 32 * i_, 'keysbuf', k_)
+        nc.m.record('keysbuf', kc, const=True)
+        args = [nc.m.record('keysvec', {0: (Ptr('keysbuf', 0), 8), 8: (Ptr('keysbuf', 64), 8), 16: (Ptr('keysbuf', 64), 8)}, const=True)]
     else:
         args = [BV(x) for x in extra] + [BV(1), BV(0)]
     sym = '_ZNK7awkward%s%s' % (short, mm)
+    if meth == 'getitem_fields':
+        cands = sorted([f for mod_ in nc.m.eng.mods for f in mod_.func_src if f.startswith('_ZNK7awkward%s14getitem_fieldsERKSt6vector' % short)], key=len)
+        if not cands:
+            raise Unsupported('getitem_fields of %s not found in the IR' % cls)
+        sym = cands[0]
     if meth == 'combinations':          # substitution numbers in the mangled name differ between template and plain classes: find it by prefix
         cands = [f for mod_ in nc.m.eng.mods for f in mod_.func_src if f.startswith('_ZNK7awkward%s12combinationsElb' % short)]
         if not cands:
@@ -1050,6 +1062,9 @@ def h_option_below(cls, pattern, variant, meth):
             obls.append(('the content receives the same request (n, replacement, axis, depth)', z3.And(pc, z3.Or(a[0] != 2, a[1] != 0, a[4] != 1, a[5] != 0))))
         elif meth == 'getitem_field':
             obls.append(('the content is asked for the same field name', z3.And(pc, z3.BoolVal(_read_string(out.mem, a[0]) != 'k'))))
+        elif meth == 'getitem_fields':
+            same = z3.Or([gg for gg, qq in nodeh.ptr_cases(a[0]) if qq.obj == 'keysvec'] + [z3.BoolVal(False)])
+            obls.append(('the content is asked for the same field names', z3.And(pc, z3.Not(same))))
         else:
             want_args = list(extra) + [1, 0]
             obls.append(('the content receives the same request (same axis, same depth)', z3.And(pc, z3.Or([x != w for x, w in zip(a, want_args)]))))
@@ -1070,6 +1085,9 @@ def h_option_below(cls, pattern, variant, meth):
             # content: records {j: ..., k: ...}; projecting k through the option node keeps None where it was
             prog = 'i64 %s i64 %s record 2 %d j k ' % (fullnative.ints(range(lc)), fullnative.ints([500 + x for x in range(lc)]), lc) + head(model, lc) + 'getfield k'
             return akrun_check(prog, [None if v < 0 else 500 + v for v in iv], '%s (valid entries -> content %s)::getitem_field' % (cls, iv))
+        if meth == 'getitem_fields':
+            prog = 'i64 %s i64 %s record 2 %d j k ' % (fullnative.ints(range(lc)), fullnative.ints([500 + x for x in range(lc)]), lc) + head(model, lc) + 'getfields 2 k j'
+            return akrun_check(prog, [None if v < 0 else {'k': 500 + v, 'j': v} for v in iv], '%s (valid entries -> content %s)::getitem_fields' % (cls, iv))
         import itertools as _it
         ref = {'combinations': lambda l: [{'0': a_, '1': b_} for a_, b_ in _it.combinations(l, 2)], 'num': lambda l: len(l), 'localindex': lambda l: list(range(len(l))), 'rpad': lambda l: py_pad(l, 3, False, None), 'rpad_and_clip': lambda l: py_pad(l, 3, True, None)}[meth]
         exp = [None if v < 0 else ref(inner[v]) for v in iv]
